@@ -1,7 +1,7 @@
 (** C29 — networks deliver every message exactly once with metadata intact.
     Property theorems only. *)
 From Coq Require Import Permutation.
-From Akita Require Import Lib.Base C30.Model C30.ProofsMesh C30.ProofsFW C31.Model C29.Model C29.ProofsAcc C29.ProofsNet C29.ProofsMeshRank C29.ProofsMeshNet C29.ProofsTreeNet C29.ProofsTreeFW.
+From Akita Require Import Lib.Base C30.Model C30.ProofsMesh C30.ProofsFW C31.Model C29.Model C29.ProofsAcc C29.ProofsNet C29.ProofsMeshRank C29.ProofsMeshNet C29.ProofsTreeNet C29.ProofsTreeFW C29.ProofsChain.
 
 (** Soundness of the acceptor that every real run is checked against: a trace of
     device-port events that it accepts satisfies, at every position, the
@@ -316,6 +316,65 @@ Example c29_tree_tables_nonvacuous :
 Proof.
   cbv zeta. split; [vm_compute; reflexivity|]. split; [vm_compute; reflexivity|]. split; [vm_compute; reflexivity|].
   eexists. split; [vm_compute; reflexivity|]. vm_compute. reflexivity.
+Qed.
+
+(** * Why one bounded FIFO channel may stand for a series of switch buffers
+
+    Between two arbitration points a flit crosses, in series: send-out buffer ->
+    port outgoing buffer -> link -> peer port incoming buffer -> latency pipeline
+    (one slot per stage) -> route buffer -> forward buffer.  With one lane per
+    port each is a bounded FIFO handing its head to the next when that has room
+    ([push] / [shift i] / [pop] on a [chain]; [abs] = the content oldest first;
+    [total] = the sum of the capacities).  The series refines ONE bounded FIFO of
+    capacity [total]: a push appends to [abs] and is only possible below [total],
+    internal shifts leave [abs] unchanged, a pop removes the head of [abs]
+    (order preserved, nothing lost or duplicated, capacities respected). *)
+Theorem c29_buffer_series_refines_one_fifo : forall (A : Type) (ch : list (nat * list A)), ok ch ->
+  (forall x ch', push x ch = Some ch' ->
+     abs ch' = abs ch ++ [x] /\ ok ch' /\ total ch' = total ch /\ length (abs ch) < total ch) /\
+  (forall i ch', shift i ch = Some ch' -> abs ch' = abs ch /\ ok ch' /\ total ch' = total ch) /\
+  (forall y ch', pop ch = Some (y, ch') -> abs ch = y :: abs ch' /\ ok ch' /\ total ch' = total ch) /\
+  length (abs ch) <= total ch.
+Proof.
+  intros A ch Hok. split; [|split; [|split]].
+  - intros x ch' H. exact (push_refines x ch ch' Hok H).
+  - intros i ch' H. exact (shift_refines i ch ch' Hok H).
+  - intros y ch' H. exact (pop_refines ch y ch' Hok H).
+  - exact (abs_length_le ch Hok).
+Qed.
+Print Assumptions c29_buffer_series_refines_one_fifo.
+
+(** ... and it is as live as that FIFO: internal shifts terminate ([weight]
+    strictly decreases), and once none is possible a non-empty series offers its
+    oldest item and a series holding fewer than [total] items accepts a new one. *)
+Theorem c29_buffer_series_progress : forall (A : Type) (ch : list (nat * list A)),
+  ok ch -> caps_pos ch ->
+  (forall i ch', shift i ch = Some ch' -> weight ch' < weight ch) /\
+  ((forall i, shift i ch = None) ->
+     (abs ch <> [] -> exists y ch', pop ch = Some (y, ch')) /\
+     (forall x, ch <> [] -> length (abs ch) < total ch -> exists ch', push x ch = Some ch')).
+Proof.
+  intros A ch Hok Hc. split.
+  - intros i ch' H. exact (proj1 (shift_decreases i ch ch' H)).
+  - intro Hs. split.
+    + intro Hne. exact (stuck_offers ch Hc Hs Hne).
+    + intros x Hne Hlt. exact (stuck_accepts x ch Hne Hc Hok Hs Hlt).
+Qed.
+Print Assumptions c29_buffer_series_progress.
+
+(** Non-vacuity: the series of a mesh link with switch latency 2 (send-out 1, port
+    out 1, port in 1, two pipeline stages, route 1, forward 1: total 7). *)
+Example c29_chain_nonvacuous :
+  let ch : list (nat * list nat) := [(1, [5]); (1, []); (1, [4]); (1, []); (1, [3]); (1, [2]); (1, [1])] in
+  ok ch /\ caps_pos ch /\ total ch = 7 /\ abs ch = [1; 2; 3; 4; 5] /\
+  push 6 ch = None /\
+  (exists ch1, shift 0 ch = Some ch1 /\ abs ch1 = abs ch /\ exists ch2, push 6 ch1 = Some ch2 /\ abs ch2 = [1; 2; 3; 4; 5; 6]) /\
+  exists ch3, pop ch = Some (1, ch3) /\ abs ch3 = [2; 3; 4; 5].
+Proof.
+  cbv zeta. split; [repeat constructor|]. split; [repeat constructor|].
+  split; [reflexivity|]. split; [reflexivity|]. split; [reflexivity|]. split.
+  - eexists. split; [reflexivity|]. split; [reflexivity|]. eexists. split; reflexivity.
+  - eexists. split; reflexivity.
 Qed.
 
 (** Non-vacuity of the abstract theorems: a 3-channel line 0 -> 1 -> 2 -> device
